@@ -143,6 +143,42 @@ def instantiate(I, cls, args, kwargs):
             for i, a in enumerate(args[:2]):
                 ctx.store_raw(ctx.ref_id(e), "$arg%d" % i, ctx.to_val(a).t)
         return e
+    if reg.is_sub(cls, ExternalRef("dict")):
+        owner, init = I.repo.lookup_member(cls, "__init__")
+        if not isinstance(init, FunctionInfo):
+            # subclass of dict without its own __init__: a dict carrying its class (e.g. logger._WarnMap)
+            d = VDict(kwargs)
+            if args:
+                src = ctx.from_val(args[0]) if isinstance(args[0], SV) else args[0]
+                if isinstance(src, VDict):
+                    d.items = dict(src.items, **kwargs)
+                else:
+                    raise Unsupported("dict subclass from non-concrete mapping")
+            d.cls = cls
+            return d
+    if any(isinstance(k, ExternalRef) and k.dotted.split(".")[-1] == "NamedTuple" for k in I.repo.mro(cls)):
+        # typing.NamedTuple: positional/keyword fields in annotation order, defaults from the class body
+        ty = TObj(cls.key)
+        ty.cls = cls
+        obj = ctx.alloc(cls, ty)
+        key = z3.simplify(ctx.ref_id(obj)).sexpr()
+        ctx.partial_objs.add(key)
+        names = [n for n, _ in cls.annotations]
+        if len(args) > len(names):
+            raise PyRaise(I.make_exception(ExternalRef("TypeError"), ["too many arguments"]))
+        vals = dict(zip(names, args))
+        for k, v in kwargs.items():
+            if k in vals or k not in names:
+                raise PyRaise(I.make_exception(ExternalRef("TypeError"), ["bad keyword %s" % k]))
+            vals[k] = v
+        for n, dflt in cls.annotations:
+            if n not in vals:
+                if dflt is None:
+                    raise PyRaise(I.make_exception(ExternalRef("TypeError"), ["missing %s" % n]))
+                vals[n] = I.eval(Frame(None, {}, [], cls.module), dflt)
+            ctx.store_raw(ctx.ref_id(obj), n, ctx.to_val(vals[n]).t)
+            ctx.present.setdefault(key, set()).add(n)
+        return obj
     newc = I.E.contracts.get(cls.key + ".__new__")
     if newc is not None:
         return apply_contract(I, newc, [cls] + list(args), kwargs)
@@ -264,6 +300,8 @@ def exc_class_of(I, name):
 def apply_contract(I, con, args, kwargs, fi=None, callee_label=None):
     ctx = I.ctx
     label = callee_label or con.key
+    if con.result is not None or con.raises or con.writes is not None:
+        ctx.ghost["nondet"] = True  # the callee's outcome is chosen by its contract, not computed
     bound = bind_contract_params(I, con, args, kwargs, fi)
     # shapes of parameters are part of the precondition
     old_heap = ctx.snapshot()
